@@ -64,6 +64,11 @@ c.finish(
         "decoders ignore it",
         "values are compared as in C01 (nil entry absent, nil array = null, nil dict = empty dict); H-float as in C01",
         "State: only nesting and the Allowed/Transition table are modelled, not the graphics-state requirements",
+        "Builder calls with caller-owned arguments (BuilderModel.v: DrawInlineImageRaw, TextShowRaw, TextShowNextLineRaw, "
+        "TextShowKernedRaw, MarkedContentPoint/Start, argument-free calls): the operators are BuilderModel.build_ops of the "
+        "values each call saw; aliasing schedules (shared maps/slices, changed between and after the calls) compare the real "
+        "Builder with the model (case BA), with a Builder given private copies, and the arguments before/after every call; "
+        "SetLineDash (floats) is compared with the private-copy Builder only",
     ],
     trusted=[
         "hand-written Gallina model coq/C15/{Content,State}.v of graphics/content/{writer,stream,state,operator}.go, tied "
